@@ -137,8 +137,8 @@ func TestDriveNoAbort(t *testing.T) {
 }
 
 func runNoAbort(t *testing.T, em *drv.Emitter, w *world, h drv.History, long bool) {
-	if len(h.Steps) < 2 || h.Steps[0].Act != "Init" {
-		t.Fatalf("history %d: must start with Init", h.H)
+	if len(h.Steps) < 2 || h.Steps[0].Act != "Prepare" {
+		t.Fatalf("history %d: must start with Prepare", h.H)
 	}
 	var ia c09Args
 	must(json.Unmarshal(h.Steps[0].Args, &ia))
@@ -147,9 +147,37 @@ func runNoAbort(t *testing.T, em *drv.Emitter, w *world, h drv.History, long boo
 	if !ok || !ok2 {
 		t.Fatalf("history %d: unknown stage / height class %v", h.H, ia)
 	}
-	c := w.fork()
-	defer c.close()
-	dead := false // the chain aborted: nothing more can be delivered
+	// the prepared stage at the block before the hostile one is built once per process and forked per history
+	key := ia.Stage + "|" + ia.HClass
+	p, ok := w.prepared[key]
+	if !ok {
+		pc := w.fork()
+		keepAlive = append(keepAlive, pc.e)
+		p = &preparedStage{e: pc.e, res: "ok"}
+		for pc.e.Height < target-1 {
+			k := int(target-1-pc.e.Height) - 1 // blocks still to go after this one
+			var txs [][]byte
+			if k < len(script) {
+				txs = pc.build(script[len(script)-1-k])
+			}
+			if _, err := pc.e.DeliverBlock(txs); err != nil {
+				p.res, p.stack = "abort", err.Error()
+				break
+			}
+		}
+		w.prepared[key] = p
+	}
+	dead := p.res != "ok" // the chain aborted: nothing more can be delivered
+	initRes, initStack := p.res, p.stack
+	var c *chain
+	if dead {
+		c = &chain{w: w, e: p.e}
+	} else {
+		f, err := p.e.Fork(1)
+		must(err)
+		c = &chain{w: w, e: f}
+		defer c.close()
+	}
 	deliver := func(txs [][]byte) (codes []int, stack string) {
 		res, err := c.e.DeliverBlock(txs)
 		if err != nil {
@@ -161,22 +189,10 @@ func runNoAbort(t *testing.T, em *drv.Emitter, w *world, h drv.History, long boo
 		}
 		return codes, ""
 	}
-	// Init: advance to the block before the hostile one; the stage script occupies the last blocks
-	initRes, initStack := "ok", ""
-	for c.e.Height < target-1 && !dead {
-		k := int(target-1-c.e.Height) - 1 // blocks still to go after this one
-		var txs [][]byte
-		if k < len(script) {
-			txs = c.build(script[len(script)-1-k])
-		}
-		if _, st := deliver(txs); st != "" {
-			initRes, initStack = "abort", st
-		}
-	}
-	em.Emit(map[string]any{"h": h.H, "i": 0, "act": "Init", "args": map[string]any{"stage": ia.Stage, "hclass": ia.HClass}, "res": initRes,
+	em.Emit(map[string]any{"h": h.H, "i": 0, "act": "Prepare", "args": map[string]any{"stage": ia.Stage, "hclass": ia.HClass}, "res": initRes,
 		"height": int(c.e.Height), "whash": w.hash, "stack": shortStack(initStack)})
 	hostileAt := int64(0)
-	gate := false
+	gate, rejected := false, false
 	for i, st := range h.Steps[1:] {
 		ev := map[string]any{"h": h.H, "i": i + 1, "act": st.Act}
 		switch st.Act {
@@ -210,7 +226,7 @@ func runNoAbort(t *testing.T, em *drv.Emitter, w *world, h drv.History, long boo
 			if n0 > 0 {
 				ev["res"] = "accepted"
 			} else {
-				ev["res"] = "rejected"
+				ev["res"], rejected = "rejected", true
 				if c.e.LastRes != nil && len(c.e.LastRes.TxResults) > 0 {
 					r := c.e.LastRes.TxResults[0]
 					ev["log"] = firstLines(fmt.Sprintf("%s/%d %s", r.Codespace, r.Code, r.Log), 200)
@@ -266,6 +282,11 @@ func runNoAbort(t *testing.T, em *drv.Emitter, w *world, h drv.History, long boo
 				need300 := long || hostileAt <= 303
 				done := func() bool {
 					return cov["m10"] && cov["m50"] && (!need300 || (cov["m300"] && cov["m303"]))
+				}
+				if rejected {
+					// nothing of the transaction reached the state: two more blocks only
+					k := 0
+					done = func() bool { k++; return k > 2 }
 				}
 				n := 0
 				for !done() && n < 700 {
